@@ -1,0 +1,18 @@
+//go:build verif
+
+package websocket
+
+import "github.com/talostrading/sonic"
+
+// VerifAttach puts the stream into StateActive on top of the given transport, the way a successful
+// handshake does (state = StateActive; init(stream)). It exists only for the verification harness in
+// /verif, which drives the framing layer over a scripted in-memory transport.
+func (s *Stream) VerifAttach(stream sonic.Stream) error {
+	s.state = StateActive
+	return s.init(stream)
+}
+
+// VerifSrc / VerifDst expose the stream's read and write buffers (read-only use by the harness:
+// lengths of the regions, to check that nothing is left behind).
+func (s *Stream) VerifSrc() *sonic.ByteBuffer { return s.src }
+func (s *Stream) VerifDst() *sonic.ByteBuffer { return s.dst }
